@@ -4854,9 +4854,11 @@ impl GraphEngine {
                         }
                     }
 
+                    // A directed edge can only be walked from its source; the incoming
+                    // list is consulted for undirected edges stored the other way round.
                     let neighbor = if edge.from == current {
                         edge.to
-                    } else if edge.to == current {
+                    } else if edge.to == current && !edge.directed {
                         edge.from
                     } else {
                         continue;
